@@ -105,6 +105,8 @@ class NameFixPass(ir.passes.InPlacePass):
         # (even though we don't write to it)
         scoped_used_value_names: list[set[str]] = [set()]
         scoped_used_node_names: list[set[str]] = [set()]
+        # The graphs being visited, aligned with the scopes above
+        graph_stack: list[ir.Graph | ir.Function | None] = [None]
 
         # Counters for generating unique names (using list to pass by reference)
         value_counter: collections.Counter[str] = collections.Counter()
@@ -122,6 +124,7 @@ class NameFixPass(ir.passes.InPlacePass):
             # Initialize new scopes with all names from the parent scope
             scoped_used_value_names.append(set(scoped_used_value_names[-1]))
             scoped_used_node_names.append(set())
+            graph_stack.append(graph_like)
 
             nonlocal modified
 
@@ -152,6 +155,15 @@ class NameFixPass(ir.passes.InPlacePass):
             # Pop the current scope
             scoped_used_value_names.pop()
             scoped_used_node_names.pop()
+            graph_stack.pop()
+
+        def owner_scope_index(value: ir.Value) -> int:
+            """Index of the scope of the graph that owns the value (the outermost one if unknown)."""
+            owner = value.graph
+            for index in range(len(graph_stack) - 1, 0, -1):
+                if graph_stack[index] is owner:
+                    return index
+            return 1
 
         # Step 3: Process all nodes and their values
         for node in ir.traversal.RecursiveGraphIterator(
@@ -169,11 +181,17 @@ class NameFixPass(ir.passes.InPlacePass):
 
             # Fix input value names (only if not already processed)
             for input_value in node.inputs:
-                if input_value is not None:
+                if input_value is not None and input_value not in seen_values:
                     if self._process_value(
                         input_value, scoped_used_value_names[-1], seen_values, value_counter
                     ):
                         modified = True
+                    # A value of an enclosing graph met before its producer (unsorted graph):
+                    # its name is taken in the graph that owns it and in the graphs in between,
+                    # not only in the subgraph that is left again
+                    assert input_value.name is not None
+                    for scope in scoped_used_value_names[owner_scope_index(input_value) : -1]:
+                        scope.add(input_value.name)
 
             # Fix output value names (only if not already processed)
             for output_value in node.outputs:
